@@ -67,6 +67,8 @@ def normalized_tokens(src):
 #  ("iflet", name, e, then_block, else_block_or_None) for `if let Some(name) = e`; ("vecrep", elem, count) for
 #  `vec![elem; count]`; ("index", a, ("rangeto", k) | ("rangefrom", j) | ("range", j, k)) for slices;
 #  ("for", (n1, n2, ..), iter, body) for a tuple pattern; statement ("continue",);
+#  ("tpath", [a,b,..], [types]) for a path ending in a turbofish (`std::mem::size_of::<Self>`); ("arrayrep", elem, count)
+#  for `[elem; count]` (both only in the generic Serializable impls, tools/translate.py SerialImplGen);
 #  ("veclit", [es]) for `vec![a, b, ..]` / `vec![]`; ("refmut", e) for `&mut e` (only as an argument for a `&mut` parameter
 #  or as the scrutinee of `if let Some(x) = &mut place`); statement ("panic",) for `panic!(..)` as a statement / in tail position
 # ---------------------------------------------------------------------------------------------
@@ -233,6 +235,13 @@ class Parser:
             return e
         if tok == ("op", "{"):
             return self.parse_block()
+        if tok == ("op", "["):                               # [elem; count] (array repeat expression)
+            self.next()
+            elem = self.parse_expr()
+            self.expect("op", ";")
+            count = self.parse_expr()
+            self.expect("op", "]")
+            return ("arrayrep", elem, count)
         if tok == ("id", "if"):
             return self.parse_if()
         if tok == ("id", "loop") and self.peek(1) == ("op", "{"):
@@ -281,6 +290,14 @@ class Parser:
             path = [tok[1]]
             while self.at("op", "::"):
                 self.next()
+                if self.at("op", "<"):                       # turbofish at the end of a path: size_of::<T>
+                    self.next()
+                    targs = [self.parse_type()]
+                    while self.at("op", ","):
+                        self.next()
+                        targs.append(self.parse_type())
+                    self.expect("op", ">")
+                    return ("tpath", path, targs)
                 path.append(self.expect("id")[1])
             if self.at("op", "!") and self.peek(1) == ("op", "("):
                 self.next()
@@ -672,6 +689,21 @@ def impl_blocks(src):
             trait = re.sub(r"<.*$", "", trait, flags=re.S).split("::")[-1]
         b0 = m.end() - 1
         out.append((trait, hm.group(2), src[b0:find_matching(src, b0) + 1]))
+    return out
+
+
+def impl_blocks_any(src):
+    """[(trait or None, type name, body incl. braces, header source `impl .. ` up to the brace)] for every impl block,
+    also for lower-case (primitive) type names; used for the generic Serializable impls"""
+    out = []
+    for m in re.finditer(r"\bimpl\b[^{;]*\{", src):
+        header = src[m.start():m.end() - 1].strip()
+        h = re.sub(r"\bwhere\b.*$", "", header, flags=re.S).strip()
+        hm = re.fullmatch(r"impl\s*(?:<[^>]*>)?\s*(?:([A-Za-z_][A-Za-z0-9_:]*)\s+for\s+)?([A-Za-z_][A-Za-z0-9_]*)\s*(?:<[^{]*>)?", h)
+        if not hm:
+            raise ParseError("unsupported impl header %r" % " ".join(header.split()))
+        b0 = m.end() - 1
+        out.append((hm.group(1), hm.group(2), src[b0:find_matching(src, b0) + 1], header))
     return out
 
 
